@@ -16,6 +16,13 @@ CURATED = [
     ("identical-name", "a", "a", "one"),
     ("different-name", "a", "b", "one"),
     ("alias-module", "os.path", "o2.path", "one"),
+    # one symbol reached through different spellings: the operands are not the same expression
+    ("same-symbol-other-base", "os.path.sep", "posixpath.sep", "one"),
+    ("same-symbol-other-base-call", "os.path.join(s, s)", "posixpath.join(s, s)", "one"),
+    ("same-symbol-from-import", "ospath.sep", "os.path.sep", "one"),
+    ("same-symbol-alias-of-other-module", "pp2.curdir", "os.path.curdir", "one"),
+    ("same-attribute-same-base", "os.path.sep", "os.path.sep", "one"),
+    ("other-attribute-same-base", "os.path.sep", "os.path.altsep", "one"),
     ("nonbmp-literal", '"\U0001f600"', '"ὠ0"', "one"),
     ("literal-int-float", "1", "1.0", "one"),
     ("literal-str-bytes", '"a"', 'b"a"', "one"),
